@@ -211,6 +211,14 @@ def heap_effects(rep, smod):
         rep.floor(f'{q} paths analysed', n, 4 if q == 'Heap.alloc' else 9)
 
 
+def depends(rep, repo):
+    """Which locations are live at the same time is decided by the schedule pass that releases memory (C07 operand,
+    level and release rules): a wrong release (freed twice, freed while a later op of the level still reads it) makes two
+    live signals share memory. Rule ids keep their C07. prefix."""
+    from checks import c07
+    c07.schedule_rules(rep, repo)
+
+
 def thorough(rep, repo):
     """Thorough tier: the quick rules plus checker self-validation on the C08 slice of the mutation corpus."""
     from kvstatic import thorough as thorough_mod
